@@ -295,4 +295,53 @@ example : (run Core.drvA [] Core.drvScript).rows.take 3 = (run Core.drvC [] Core
       rcases ht with rfl | rfl | rfl <;> exact ⟨by decide, .cons (by decide) (.cons (by decide) .nil)⟩)
     (by decide)
 
+/-! ### the same on the frames: the first market is the longest in both histories -/
+
+theorem Core.distinctTimes_sorted : ∀ l : List Int, l.Pairwise (· < ·) → distinctTimes l = l
+  | [], _ => rfl
+  | [_], _ => rfl
+  | a :: b :: l, h => by
+    have hab : a < b := (List.pairwise_cons.mp h).1 b (List.mem_cons_self ..)
+    have ih := Core.distinctTimes_sorted (b :: l) (List.pairwise_cons.mp h).2
+    rw [distinctTimes, if_neg (by omega), ih]
+
+/-- **C02 for `Actuator.run`, stated on the frames.**  One-minute runs (no resampling) of two configurations in which the FIRST market's frame
+    (one row per timestamp, in time order) has at least as many timestamps as every other market's — in both — and the two first-market frames
+    share the timestamps `ts0 :: pre`; data agreeing on those bars; `_check_backtest` passed.  Then the runs agree on the bars `ts0 :: pre`
+    (trace, account rows, actions, state), whatever rows follow in any frame — as long as they do not make another market the longest
+    (`C02_fails_driving_market_changes_in_the_suffix`: if they do, the clause is false). -/
+theorem C02_run_prefix_first_market_longest (c₁ c₂ : Cfg) (trigs : List Trig) (sc : Script) (ts0 : Int) (pre suf₁ suf₂ : List Int)
+    (d₁ d₂ : MarketCfg) (r₁ r₂ : List MarketCfg) (hm₁ : c₁.markets = d₁ :: r₁) (hm₂ : c₂.markets = d₂ :: r₂)
+    (hr₁ : c₁.resample = false) (hr₂ : c₂.resample = false)
+    (hd₁ : d₁.idx = ts0 :: pre ++ suf₁) (hd₂ : d₂.idx = ts0 :: pre ++ suf₂)
+    (hs₁ : d₁.idx.Pairwise (· < ·)) (hs₂ : d₂.idx.Pairwise (· < ·))
+    (hl₁ : ∀ m ∈ r₁, (distinctTimes m.idx).length ≤ d₁.idx.length) (hl₂ : ∀ m ∈ r₂, (distinctTimes m.idx).length ≤ d₂.idx.length)
+    (hc₁ : checkBacktest c₁ = none) (hc₂ : checkBacktest c₂ = none)
+    (hag : ∀ t ∈ ts0 :: pre, AgreeAt c₁ c₂ t)
+    (hok : (runPrefix c₁ trigs sc ts0 pre).2.2 = none) :
+    runPrefix c₂ trigs sc ts0 pre = runPrefix c₁ trigs sc ts0 pre ∧
+    (runPrefix c₁ trigs sc ts0 pre).1 <+: (run c₁ trigs sc).trace ∧ (runPrefix c₁ trigs sc ts0 pre).1 <+: (run c₂ trigs sc).trace ∧
+    (run c₁ trigs sc).rows.take (pre.length + 1) = (run c₂ trigs sc).rows.take (pre.length + 1) ∧
+    ((run c₁ trigs sc).rows.take (pre.length + 1)).map Prod.fst = ts0 :: pre ∧
+    (runPrefix c₁ trigs sc ts0 pre).2.1.all <+: (run c₁ trigs sc).actions ∧ (runPrefix c₁ trigs sc ts0 pre).2.1.all <+: (run c₂ trigs sc).actions := by
+  have b₁ : barIndex c₁ = ts0 :: pre ++ suf₁ := by
+    rw [C02_first_market_drives c₁ d₁ r₁ hm₁ (by rw [Core.distinctTimes_sorted _ hs₁]; exact hl₁), Core.distinctTimes_sorted _ hs₁, hr₁, hd₁]
+    rfl
+  have b₂ : barIndex c₂ = ts0 :: pre ++ suf₂ := by
+    rw [C02_first_market_drives c₂ d₂ r₂ hm₂ (by rw [Core.distinctTimes_sorted _ hs₂]; exact hl₂), Core.distinctTimes_sorted _ hs₂, hr₂, hd₂]
+    rfl
+  obtain ⟨e, t₁, t₂, _, _, _, a₁, a₂⟩ := C02_run_prefix_same_driving_market c₁ c₂ trigs sc ts0 pre suf₁ suf₂ hc₁ hc₂ b₁ b₂ hag hok
+  obtain ⟨q₁, q₂⟩ := C02_run_rows_of_prefix_same_driving_market c₁ c₂ trigs sc ts0 pre suf₁ suf₂ hc₁ hc₂ b₁ b₂ hag hok
+  exact ⟨e, t₁, t₂, q₁, q₂, a₁, a₂⟩
+
+/-- non-vacuity: `drvA` / `drvC` of this file (second market [60,120] versus [60,120,180]: never longer than the first) -/
+example : (run Core.drvA [] Core.drvScript).rows.take 3 = (run Core.drvC [] Core.drvScript).rows.take 3 :=
+  (C02_run_prefix_first_market_longest Core.drvA Core.drvC [] Core.drvScript 0 [60, 120] [] [] _ _ _ _ rfl rfl rfl rfl rfl rfl
+    (by decide) (by decide) (by decide) (by decide) (by decide) (by decide)
+    (by
+      intro t ht
+      simp only [List.mem_cons, List.not_mem_nil, or_false] at ht
+      rcases ht with rfl | rfl | rfl <;> exact ⟨by decide, .cons (by decide) (.cons (by decide) .nil)⟩)
+    (by decide)).2.2.2.1
+
 end Demeter
